@@ -44,7 +44,7 @@ CODE_DEFECTS = json.load(open(os.path.join(common.VERIF, "spec", "code_defects.j
 def write_cfg(path, invariants, properties=()):
     with open(path, "w") as f:
         f.write("SPECIFICATION Spec\nCONSTANTS\n  NW <- MC_NW\n  Scripts <- MC_Scripts\n  MaxTick <- MC_MaxTick\n"
-                "  MaxPid <- MC_MaxPid\n  MaxFuel <- MC_MaxFuel\n  Placement <- MC_Placement\n  Defects <- MC_Defects\n  IOModes <- MC_IOModes\n"
+                "  MaxPid <- MC_MaxPid\n  MaxFuel <- MC_MaxFuel\n  Placement <- MC_Placement\n  Defects <- MC_Defects\n  IOModes <- MC_IOModes\n  Lines <- MC_Lines\n"
                 "CHECK_DEADLOCK FALSE\n")
         if invariants:
             f.write("INVARIANTS\n  " + " ".join(invariants) + "\n")
@@ -112,6 +112,7 @@ def make_requests(scenarios, entry, nsched, seed0, nws=None, keep=10, rare_max=6
     reqs = []
     for s in scenarios:
         src = scn.render(s)
+        lines = scn.render_lines(s) if s.get("lines") else None
         for i in range(nsched):
             nw = s["nw"] if nws is None else nws[(i + len(s["name"])) % len(nws)]
             m = {"scenario": s["name"], "entry": entry[s["name"]], "confluent": bool(s.get("confluent")),
@@ -120,12 +121,20 @@ def make_requests(scenarios, entry, nsched, seed0, nws=None, keep=10, rare_max=6
                 m["expected_outcome"] = s["expected_outcome"]
             if s.get("expected_results") is not None:
                 m["expected_results"] = s["expected_results"]
+            if lines:
+                # a REPL session: the entry scripts of the lines (batch numbering), and the host submits a line
+                # as soon as the previous result is in (schedule 0: only at quiescence)
+                m["lines"] = [entry[s["name"]] + k - 1 for k in s["lines"]]
+                m["entry"] = m["lines"][0]
             driver = "default" if i == 0 else ("pct" if i % 3 == 2 else "random")
             reqs.append({"id": "%s#%d" % (s["name"], i), "group": s["name"], "keep": keep, "rare_max": rare_max,
                          "src": src, "nw": nw, "driver": driver,
                          "seed": seed0 * 1000003 + i * 7919 + len(reqs), "quanta": QUANTA if i else [1000],
                          "max_steps": 6000, "meta": m, "io": bool(s.get("io")), "pct_changes": i % 4,
                          "deferred_io": bool(s.get("deferred_io"))})
+            if lines:
+                reqs[-1]["lines"] = lines
+                reqs[-1]["early_lines"] = i > 0
     return reqs
 
 
@@ -183,6 +192,8 @@ def select_scenarios(prop, tier):
         # seeded random well-typed systems (no promise about termination or confluence)
         k = 10 if tier == "quick" else 120
         fams += [families.random_scenario(common.seed() * 1000 + i, 2) for i in range(k)]
+    if os.environ.get("RT_ONLY"):       # development aid: only the scenarios whose name contains the given text
+        return [s for s in fams if os.environ["RT_ONLY"] in s["name"]]
     if prop == "C05":
         # seeded sample of the cross product (source lists of length <= 3) x (mailbox pre-loads) x (late arrivals)
         fams += families.select_product(common.seed(), 8 if tier == "quick" else 60, 2)
@@ -297,7 +308,7 @@ def run(prop, tier, check=None):
         reported.add(key)
         req = by_id.get(v["run"], {})
         check.violation({"property": prop, "rule": v["rule"], "detail": v["detail"], "run": v["run"],
-                         "record": v["record"], "src": req.get("src"), "nw": req.get("nw"),
+                         "record": v["record"], "src": req.get("src"), "lines": req.get("lines"), "nw": req.get("nw"),
                          "schedule": sched.get(v["run"]), "scenario": req.get("meta", {}).get("scenario")},
                         name=v["rule"], key=key,
                         what="%s violated in run %s at record %d: %s" % (v["rule"], v["run"], v["record"], v["detail"][:300]))
@@ -336,6 +347,10 @@ def replay(prop, path):
     req = {"id": r["run"], "src": r["src"], "nw": r["nw"], "driver": "replay", "schedule": r["schedule"],
            "quanta": [1000], "meta": {"scenario": s["name"], "entry": 1, "confluent": False,
                                       "terminates": bool(s.get("terminates"))}}
+    if r.get("lines"):
+        req["lines"] = r["lines"]
+        req["meta"]["lines"] = list(s["lines"])
+        req["meta"]["entry"] = s["lines"][0]
     tracefile = os.path.join(WORK, "trace_replay.ndjson")
     run_sim([req], tracefile)
     res, viols = monitor(tracefile, scriptsfile)
